@@ -122,15 +122,20 @@ CHECKS = {
          "check directive shapes, quoting, and that each candidate/completer appears exactly once. Three defects found this way "
          "were repaired (fix: commits).",
          "4/C15", "Rocq proof (quote round-trip through a shell-word lexer, line discipline) + byte-exact differential of the renderers via hook + per-shell script lexers"),
- "C14": ("proof", "PARTIAL. Theorems in coq/Props/C14.v: soundness of the two candidate filters (a flag/argument name is offered "
-         "only for an empty/`-` word, its exact short spelling or a `--` prefix of its first long name, and in its preferred "
-         "spelling; a command name only for a prefix or its short alias); the filters are tied to the code through the "
-         "cfg(bpaf_verif) hooks on 600 cases per run. The hint bookkeeping threaded through every parser is NOT modelled: "
+ "C14": ("proof", "PARTIAL. Completion has two stages. The SECOND stage, Complete::complete (src/complete_gen.rs: from the "
+         "collected hints to the candidates), is modelled (coq/Model/Complete.v) and proved in coq/Props/C14.v: every candidate "
+         "stems from a hint of the deepest command level entered (after `--` a positional one); names pass the name filters "
+         "(empty/`-` word, exact short spelling, `--` prefix of the first long name; command prefix or short alias) and are "
+         "offered in their preferred spelling, arguments as name=METAVAR; completer values carry the typed `-s=`/`--long=`; "
+         "placeholders replace nothing; while an argument's value is typed no flag/argument/command name is offered; otherwise "
+         "every matching hint of that level is offered. Tied to the code through cfg(bpaf_verif) hooks: 600 filter cases and "
+         "800 random hint lists per run (20000 thorough) go through the library's own Complete::complete and the extracted "
+         "model and must agree candidate for candidate. The FIRST stage (hint bookkeeping threaded through every parser) is NOT modelled: "
          "'always completion output', 'only visible names of the active command path, completer values or placeholders', "
          "'no hidden / not-entered names' and completeness for fresh prefixes are decided by an oracle computed from the "
          "definition's AST over every kind of partially typed line (prefixes of generated sentences + ``, `-`, `--`, name and "
          "command prefixes, `--name` + value, `--name=b`), with value and shell completers.",
-         "4/C14", "Rocq proof of the candidate filters (partial) + AST-derived oracle on revision-0 completion output"),
+         "4/C14", "Rocq proof of the candidate stage Complete::complete (model tied by hook-level differential) + AST-derived oracle on revision-0 completion output"),
  "C12": ("proof", "PARTIAL. Theorems in coq/Props/C12.v: the entries collected for --help are EXACTLY the visible leaves of the level "
          "(`vis`: first short/long name, metavariable, env, help; positionals with help; commands; nothing under hide) in "
          "declaration order, for every parser shape (C12_items_exact); hide_usage/custom_usage leave the item lists untouched; "
@@ -230,7 +235,7 @@ def main():
         "setup_cmd": "./verify setup",
         "hooks": {"guard": "bpaf_verif", "enable": "harness/driver/.cargo/config.toml passes rustflags --cfg bpaf_verif (and --check-cfg cfg(bpaf_verif)) to every harness build; the hooks (bpaf::verif_hooks, Doc::verif_*) exist only under that cfg",
                   "baseline_off_cmd": "cd /repo && cargo test --workspace --no-fail-fast --offline",
-                  "source_commits": ["871a93d"], "add_only": True},
+                  "source_commits": ["871a93d", "0b5893f"], "add_only": True},
         "engines": [{"name": "rocq+diff", "path": "/verif/verify", "serves_properties": [c["property_id"] for c in checks],
                      "kind_free_text": "Coq 8.16 development (coq/), extracted OCaml model runner (ocaml/), Rust driver (harness/driver), Python orchestration (vlib/)"}],
         "checks": checks,
